@@ -75,3 +75,97 @@ Example C01_store_example :
   let p := {| fp_windowLog := 19; fp_contentSize := true; fp_checksum := false; fp_noDictID := false; fp_magicless := false |} in
   params_ok p 3 0 /\ enc_store p 0 131072 [1; 2; 3] = [40; 181; 47; 253; 32; 3; 25; 0; 0; 1; 2; 3].
 Proof. split; [unfold params_ok; cbn; lia|vm_compute; reflexivity]. Qed.
+
+(* ---- compressed blocks: sequences section (FSE on the decoding table, backward bitstream), raw / RLE literals,
+        sequence execution (coq/Codec/EncodeSeq.v, LzContent.v) ---- *)
+From ZV.Codec Require Import Block LzContent EncodeSeq EncodeSeqProofs.
+
+(* closing a backward bitstream and re-opening it gives back exactly the bits written, for every bit list *)
+Theorem C01_bitstream_round_trip : forall s, rbits_open (pack_rbits s) = Some s.
+Proof. exact rbits_open_pack. Qed.
+Print Assumptions C01_bitstream_round_trip.
+
+(* FSE: whatever the decoding table, if the table-search encoder finds a state for a symbol, the decoder in that state
+   emits the symbol and returns to the state the encoder started from *)
+Theorem C01_fse_step_round_trip : forall t x sym st bits s,
+  enc_step t x sym = Some (st, bits) -> fse_peek t st = sym /\ fse_update t st (bits ++ s) = Some (x, s).
+Proof. exact enc_step_sound. Qed.
+Print Assumptions C01_fse_step_round_trip.
+
+(* the decoding loop over the encoding of ANY sequence list, with ANY three tables, does exactly what executing the
+   sequence values does (bit-level round trip of ZSTD_encodeSequences / ZSTD_decodeSequence, every length) *)
+Theorem C01_sequence_stream_round_trip : forall strict window blockMax tll tof tml qs st bits,
+  enc_seqs tll tof tml qs = Some (st, bits) ->
+  forall rep x lits acc x' lits' rep',
+  exec_seqs strict window blockMax qs rep x lits = Ok (x', lits', rep') ->
+  exists sq, seq_loop (length qs) strict window blockMax tll tof tml (es_ll st) (es_of st) (es_ml st) bits rep x lits acc
+             = Ok (x', lits', rep', sq).
+Proof. exact seq_loop_enc. Qed.
+Print Assumptions C01_sequence_stream_round_trip.
+
+(* the sequence-execution engine of the decoder (chunked copies through the mark accelerator) computes the naive
+   byte-by-byte LZ77 copy, for every history, offset and length *)
+Theorem C01_match_copy_is_lz77 : forall fuel x off ml, sinv x -> 1 <= off -> off <= x_avail x -> ml <= N.of_nat fuel * off ->
+  sinv (copy_match fuel x off ml) /\
+  x_hist (copy_match fuel x off ml) = copy_naive (N.to_nat ml) (N.to_nat off) (x_hist x).
+Proof. exact copy_match_spec. Qed.
+Print Assumptions C01_match_copy_is_lz77.
+
+(* a compressed block assembled from any literals section, any table descriptions and the encoded sequences decodes to
+   the execution of the sequences followed by the remaining literals *)
+Theorem C01_compressed_block_round_trip :
+  forall strict window blockMax e x litsec lits huf' lmode modes dll dof dml tll tof tml qs stream x1 lits1 rep1,
+  (forall tail, decode_literals blockMax (e_huf e) (litsec ++ tail) = Ok (lits, huf', lenN litsec, lmode)) ->
+  qs <> [] -> lenN qs < 98048 ->
+  N.land modes 3 = 0 ->
+  (forall tail, seq_table (N.shiftr modes 6) MaxLL LLFSELog 6 spec_LL_default (e_ll e) (dll ++ tail) = Ok (tll, tail)) ->
+  (forall tail, seq_table (N.land (N.shiftr modes 4) 3) MaxOff OffFSELog 5 spec_OF_default (e_of e) (dof ++ tail) = Ok (tof, tail)) ->
+  (forall tail, seq_table (N.land (N.shiftr modes 2) 3) MaxML MLFSELog 6 spec_ML_default (e_ml e) (dml ++ tail) = Ok (tml, tail)) ->
+  table_wf tll -> table_wf tof -> table_wf tml ->
+  enc_seq_stream tll tof tml qs = Some stream ->
+  exec_seqs strict window blockMax qs (e_rep e) (x_block_start x) lits = Ok (x1, lits1, rep1) ->
+  x_blk x1 + lenN lits1 <= blockMax ->
+  exists bt, decode_cblock strict window blockMax e x (enc_cblock_parts litsec (lenN qs) modes dll dof dml stream)
+             = Ok ({| e_huf := huf'; e_ll := Some tll; e_of := Some tof; e_ml := Some tml; e_rep := rep1 |},
+                   push_fwd x1 lits1 (lenN lits1), bt).
+Proof. exact decode_enc_cblock. Qed.
+Print Assumptions C01_compressed_block_round_trip.
+
+(* the basic block encoder (raw literals, predefined tables) never fails on sequences within the format's ranges:
+   tANS completeness of the three predefined tables (exhaustive sweep over their finite state x symbol spaces) *)
+Theorem C01_basic_block_encoder_total : forall qs, qs <> [] -> Forall seq_in_range qs ->
+  exists st bits, enc_seqs dflt_LL dflt_OF dflt_ML qs = Some (st, bits).
+Proof. exact enc_seqs_dflt_total. Qed.
+Print Assumptions C01_basic_block_encoder_total.
+
+(* content: a block made by the basic encoder from a parse of [regen] over ANY history decodes to exactly [regen] *)
+Theorem C01_basic_block_regenerates_parse : forall strict window blockMax e x lits qs regen x1 lits1 rep1,
+  sinv x ->
+  blockMax <= BLOCK_MAX -> lenN lits <= blockMax ->
+  qs <> [] -> lenN qs < 98048 -> Forall seq_in_range qs ->
+  exec_seqs strict window blockMax qs (e_rep e) (x_block_start x) lits = Ok (x1, lits1, rep1) ->
+  x_blk x1 + lenN lits1 <= blockMax ->
+  parses qs (e_rep e) (x_hist x) lits regen ->
+  exists payload e' x' bt,
+    enc_cblock_basic lits qs = Some payload /\
+    decode_cblock strict window blockMax e x payload = Ok (e', x', bt) /\ ext x x' regen.
+Proof. exact cblock_basic_regenerates. Qed.
+Print Assumptions C01_basic_block_regenerates_parse.
+
+(* an LZ compressor model end to end: frame header + one basic compressed block + epilogue around a parse of [regen]
+   decodes to [regen] and leaves the trailing input untouched *)
+Theorem C01_lz_frame_round_trip : forall cfg d p dictID lits qs regen rest x1 lits1 rep1,
+  let win := frame_window p (lenN regen) in
+  let blockMax := N.min (N.min win BLOCK_MAX) (c_block_max cfg) in
+  params_ok p (lenN regen) dictID ->
+  c_magicless cfg = fp_magicless p -> win <= c_window_max cfg -> dict_ok d p dictID ->
+  lenN lits <= blockMax -> qs <> [] -> lenN qs < 98048 -> Forall seq_in_range qs ->
+  exec_seqs (c_strict_window cfg) win blockMax qs (e_rep (dict_entropy d)) (x_block_start (x_init d)) lits = Ok (x1, lits1, rep1) ->
+  x_blk x1 + lenN lits1 <= blockMax ->
+  parses qs (e_rep (dict_entropy d)) (x_hist (x_init d)) lits regen ->
+  exists payload, enc_cblock_basic lits qs = Some payload /\
+    (lenN payload <= blockMax ->
+     exists t, decode_frame cfg d (enc_frame p dictID [EBComp payload regen] ++ rest) = Ok (regen, t, rest)).
+Proof. exact decode_enc_frame_one_cblock. Qed.
+Print Assumptions C01_lz_frame_round_trip.
+
